@@ -242,6 +242,29 @@ def dict_protocol(prog, res, rule: str, *, only_modify: bool = False) -> int:
         if any(m.is_abstract for m in [prog.find_method(ci, x) for x in ("create", "modify", "__eq__")] if m is not None) and ci.name in ("BaseConfig",):
             continue
         param = fd.param_names()[1]
+        # entries are left out by `is None` / sentinel tests only: a truthiness filter (`if value`, filter(None, …))
+        # also drops the valid values 0, 0.0, False and empty sequences, which then read back as the default
+        truthy = None
+        for x in walk_no_nested(td.node):
+            if isinstance(x, (ast.DictComp, ast.ListComp, ast.GeneratorExp)):
+                for g in x.generators:
+                    names = {t.id for t in ast.walk(g.target) if isinstance(t, ast.Name)}
+                    for c_ in g.ifs:
+                        t_ = c_.operand if isinstance(c_, ast.UnaryOp) and isinstance(c_.op, ast.Not) else c_
+                        if isinstance(t_, ast.Name) and t_.id in names:
+                            truthy = c_
+            if isinstance(x, ast.Call) and (dotted(x.func) or "") == "filter" and x.args and isinstance(x.args[0], ast.Constant) and x.args[0].value is None:
+                truthy = x
+        if truthy is not None and not only_modify:
+            res.touch(td)
+            res.violation(
+                rule,
+                td,
+                truthy,
+                f"{ci.name}.to_dict() leaves out entries by truthiness (`{unparse(truthy)[:40]}`): a parameter that is set to 0 / 0.0 / False is dropped from the written form and reads back as its default",
+                key_extra=f"{ci.name}-todict-truthiness-filter",
+            )
+            continue
         try:
             arms = dictsym.produced(prog, td)
         except AnalysisError as err:
@@ -565,46 +588,90 @@ def rule_r5(prog, res) -> None:
 
 
 def rule_r6(prog, res) -> None:
-    """sparse storage keeps every patch pair that has any non-zero bin"""
+    """sparse storage keeps every patch pair that has any non-zero bin, and row k of the stored values belongs to
+    pair k of the stored pair list. Decided on the symbolic store of every HDF5 writer that stores a selection: (1)
+    the mask of stored pairs is `any(<counts> [!= 0], axis=bins)` — not an arithmetic reduction compared with a
+    threshold (cancelling / negative / NaN bins are dropped) and not narrowed afterwards (e.g. to a triangle); (2) the
+    pair list and the values are selected by ONE selection object (the same nonzero()/argwhere() result), so their
+    order agrees by construction."""
+    from .. import symx
+
     n = 0
     for ci in prog.classes:
         w = ci.methods.get("to_hdf")
-        if w is None:
+        if w is None or not any((dotted(c.func) or "").split(".")[-1] in ("nonzero", "argwhere", "flatnonzero", "where") for c in calls_in(w)):
             continue
-        nz = [c for c in calls_in(w) if (dotted(c.func) or "").endswith("nonzero") and c.args]
-        for c in nz:
+        res.touch(w)
+        for p in symx.explore(prog, w, inline=symx.inline_private_helpers(prog, public={"to_hdf"})):
+            if p.outcome == "raise":
+                continue
+            sels = []
+            for ev in p.calls():
+                for x in ast.walk(ev.expr):
+                    if isinstance(x, ast.Call) and (dotted(x.func) or "").split(".")[-1] in ("nonzero", "argwhere", "flatnonzero") and x.args:
+                        if unparse(x) not in [unparse(y) for y in sels]:
+                            sels.append(x)
+            if not sels:
+                continue
             n += 1
-            res.touch(w)
-            m = c.args[0]
-            if isinstance(m, ast.Name):
-                vals = [v for v in all_def_values(w.node, m.id) if v is not None]
-                m = vals[0] if len(vals) == 1 else m
+            # (1) the mask
+            m = symx.strip_wrappers(sels[0].args[0])
+
             def is_any(e) -> bool:
                 if isinstance(e, ast.Call):
                     fn = (dotted(e.func) or "").split(".")[-1]
                     if fn == "any" and (e.args or isinstance(e.func, ast.Attribute)):
                         inner = e.args[0] if (dotted(e.func) or "").startswith(("np.", "numpy.")) and e.args else (e.func.value if isinstance(e.func, ast.Attribute) else None)
-                        # any over the raw array or over (array != 0)
                         if inner is None:
                             return False
                         if isinstance(inner, ast.Compare):
                             return len(inner.ops) == 1 and isinstance(inner.ops[0], ast.NotEq) and isinstance(inner.comparators[0], ast.Constant) and inner.comparators[0].value in (0, 0.0)
                         return not any(isinstance(x, (ast.BinOp, ast.Compare)) for x in ast.walk(inner))
                 return False
+
+            contains_any = any(is_any(x) for x in ast.walk(m))
             arith = any(isinstance(x, ast.Call) and (dotted(x.func) or "").split(".")[-1] in ("sum", "nansum", "mean", "prod", "max", "min") for x in ast.walk(m)) or isinstance(m, ast.Compare)
             if is_any(m):
-                res.ok("C11.R6", res.site(w, "non-zero mask"), f"mask {unparse(m)} marks a patch pair iff any bin is non-zero")
+                res.ok("C11.R6", res.site(w, "non-zero mask"), f"mask {unparse(m)[:60]} marks a patch pair iff any bin is non-zero")
+            elif contains_any:
+                res.violation(
+                    "C11.R6",
+                    w,
+                    sels[0],
+                    f"the mask of stored patch pairs is narrowed after it was computed ({unparse(m)[:70]}): pairs with non-zero counts outside the kept part (e.g. below the diagonal after the patches "
+                    "were reordered) are dropped from the file and read back as zeros",
+                    key_extra="sparse-mask-narrowed",
+                )
             elif arith:
                 res.violation(
                     "C11.R6",
                     w,
-                    c,
-                    f"the mask of stored patch pairs is {unparse(m)}, an arithmetic reduction compared with a threshold: pairs whose bins cancel, are negative or contain NaN are dropped "
+                    sels[0],
+                    f"the mask of stored patch pairs is {unparse(m)[:70]}, an arithmetic reduction compared with a threshold: pairs whose bins cancel, are negative or contain NaN are dropped "
                     "from the file and read back as zeros",
                     key_extra="sparse-mask-not-any",
                 )
             else:
-                raise AnalysisError(f"C11.R6: sparse mask {unparse(m)} in {w.short} not recognised")
+                raise AnalysisError(f"C11.R6: sparse mask {unparse(m)[:60]} in {w.short} not recognised")
+            # (2) one selection object for pairs and values
+            stored = [(ev, kwarg(ev.expr, "data") or (ev.expr.args[1] if len(ev.expr.args) > 1 else None)) for ev in p.calls("create_dataset")]
+            stored = [(ev, d) for ev, d in stored if d is not None]
+            sel_txt = unparse(sels[0])
+            using = [(ev, d) for ev, d in stored if sel_txt in unparse(d)]
+            masked = [(ev, d) for ev, d in stored if sel_txt not in unparse(d) and unparse(m) in unparse(d).replace(".T", "")]
+            if len(using) >= 2 and not masked:
+                res.ok("C11.R6", res.site(w, "pair/value order"), "the pair list and the values are selected by the same index arrays")
+            elif masked and using:
+                res.violation(
+                    "C11.R6",
+                    w,
+                    masked[0][0].node,
+                    f"the pair list is selected with {sel_txt[:50]} but the values with another use of the mask ({unparse(masked[0][1])[:60]}): the two selections enumerate the non-zero entries in different orders "
+                    "(row-major vs. column-major), so after reading back the counts sit at other patch pairs",
+                    key_extra="sparse-order-mismatch",
+                )
+            elif len(using) < 2:
+                raise AnalysisError(f"C11.R6: cannot relate the stored pair list and values to one selection in {w.short}")
     if n < 1:
         raise AnalysisError("C11.R6: no sparse (nonzero-mask) HDF5 writer found")
 
